@@ -144,8 +144,9 @@ static const op CV4[] = { {K_APPEND, 8, 1}, {K_CAT, 2, 0} };
 static const op CV5[] = { {K_APPEND, HUGE_UNP, VMAX / 2 + 1} };
 static const op CV6[] = { {K_ENCDEC, 0, 0} };
 static const op CV7[] = { {K_FLAGS, 1, 0}, {K_APPEND, 128, 0x4000}, {K_DUP, 0, 0} };
-static const op *CV[] = { CV0, CV1, CV2, CV3, CV4, CV5, CV6, CV7 };
-static const int CVN[] = { 1, 1, 3, 2, 2, 1, 1, 3 };
+static const op CV8[] = { {K_FLAGS, 10, 0}, {K_APPEND, 12, 3}, {K_CAT, 2, 0} };	// two Streams with different Checks: src->checks is non-zero
+static const op *CV[] = { CV0, CV1, CV2, CV3, CV4, CV5, CV6, CV7, CV8 };
+static const int CVN[] = { 1, 1, 3, 2, 2, 1, 1, 3, 3 };
 
 static int verdict_err(const char *what, int verdict, lzma_ret r) {
 	// verdict 0: must accept; 1: must refuse; 2: either
@@ -265,7 +266,7 @@ static lzma_index *build(const op *ops, int n, model *m, int check_each) {
 	return ix;
 }
 
-static op alpha[80]; static int nalpha;
+static op alpha[96]; static int nalpha;
 static long states, transitions, refused, histories, skipped; static h_set seen;
 static int shard, nshards; static long leafctr;
 static model mcur;
@@ -314,14 +315,14 @@ int main(int argc, char **argv) {
 		ADD(K_APPEND, HUGE_UNP, VMAX / 2 + 1); ADD(K_APPEND, 6, VMAX);
 		ADD(K_PAD, 0, 0); ADD(K_PAD, 4, 0); ADD(K_PAD, 8, 0); ADD(K_PAD, 3, 0); ADD(K_PAD, UNP_MAX, 0); ADD(K_PAD, (lzma_vli)1 << 62, 0); ADD(K_PAD, VMAX + 1, 0);
 		ADD(K_FLAGS, 0, 0); ADD(K_FLAGS, 1, 0); ADD(K_FLAGS, 4, 0); ADD(K_FLAGS, 10, 0); ADD(K_FLAGS, 15, 0); ADD(K_FLAGS, 16, 0);
-		for (int a = 0; a < 8; a++) ADD(K_CAT, a, 0);
+		for (int a = 0; a < 9; a++) ADD(K_CAT, a, 0);
 		ADD(K_DUP, 0, 0); ADD(K_ENCDEC, 0, 0); ADD(K_ENCDEC, 1, 0);
 		for (int a = 0; a < 4; a++) ADD(K_ITERAPP, a, 0);
 		ADD(K_ITERCAT, 2, 0); ADD(K_ITERCAT, 2, 1); ADD(K_ITERCAT, 1, 2); ADD(K_ITERCAT, 6, 2);
 	} else if (!strcmp(argv[1], "core")) {
 		ADD(K_APPEND, 8, 1); ADD(K_APPEND, 9, 0); ADD(K_APPEND, 0x4000, 0x80); ADD(K_APPEND, HUGE_UNP, VMAX / 2 + 1);
 		ADD(K_PAD, 4, 0); ADD(K_FLAGS, 1, 0); ADD(K_FLAGS, 10, 0);
-		ADD(K_CAT, 0, 0); ADD(K_CAT, 2, 0); ADD(K_CAT, 6, 0);
+		ADD(K_CAT, 0, 0); ADD(K_CAT, 2, 0); ADD(K_CAT, 6, 0); ADD(K_CAT, 8, 0);
 		ADD(K_DUP, 0, 0); ADD(K_ENCDEC, 0, 0); ADD(K_ITERAPP, 2, 0); ADD(K_ITERCAT, 1, 2);
 	} else {	// macro: default-size groups (512) crossed by bulk appends
 		ADD(K_MULTI, 511, 0); ADD(K_MULTI, 512, 0); ADD(K_MULTI, 513, 0); ADD(K_APPEND, 8, 1); ADD(K_APPEND, 9, 0);
